@@ -21,6 +21,7 @@ import (
 	"verif/harness/internal/bridge"
 	"verif/harness/internal/core"
 	"verif/harness/internal/gen"
+	"verif/harness/internal/jsx"
 	"verif/harness/internal/tlc"
 )
 
@@ -41,6 +42,23 @@ function CF(){
   return JSON.stringify({th:THISOBS(this), a:a});
 }
 var O = {m:CF};
+var LASTCALL = null;
+function MKF(name){
+  var f = function(){
+    var a = [];
+    for (var i=0;i<arguments.length;i++) a.push(OBS(arguments[i]));
+    var made = this instanceof f;
+    LASTCALL = {callee:name, construct:made,
+                th: made ? "newobj" : (this === G ? "global" : (this === O ? "O" : ((this === news || this === ns) ? "owner" : "other"))), a:a};
+    if (made) this.tag = name;
+    return "R:" + name;
+  };
+  return f;
+}
+var Point = MKF("Point"), newPoint = MKF("newPoint"), newest = MKF("newest"), renew = MKF("renew");
+var news = {count: MKF("count")};
+var ns = {newB: MKF("newB"), renew: MKF("renew"), C: MKF("C")};
+ns["new"] = MKF("new");
 function TF(){ throw new RangeError("q"); }
 var N = 5;
 var OE = {t:TF, n:5};
@@ -54,6 +72,10 @@ type line struct {
 }
 
 type caseT struct {
+	K     string `json:"k"`
+	Key   []int  `json:"key"`
+	Steps []M    `json:"steps"`
+	CSrc  M      `json:"csrc"`
 	Where string `json:"where"`
 	D     any    `json:"d"`
 	Sel   string `json:"sel"`
@@ -352,6 +374,200 @@ func runMut(vm *otto.Otto, c *caseT) (M, error) {
 	return obs, nil
 }
 
+// runDag: Export of a value with shared and cyclic containers.
+func runDag(vm *otto.Otto, src string, consts map[string]float64) (M, error) {
+	for k, f := range consts {
+		if err := vm.Set(k, f); err != nil {
+			return nil, err
+		}
+	}
+	v, err := vm.Run(src)
+	if err != nil {
+		return nil, fmt.Errorf("case text %q failed: %v", src, err)
+	}
+	var e interface{}
+	if p := guard(func() { e, _ = v.Export() }); p != nil {
+		return M{"exp": M{"x": "gopanic"}}, nil
+	}
+	return M{"exp": bridge.ProjectX(e)}, nil
+}
+
+// runCallSrc: Otto.Call with a callee source / Object.Call with a method name; the callee records how it was invoked.
+func runCallSrc(vm *otto.Otto, c *caseT) (M, error) {
+	args := make([]interface{}, len(c.Args))
+	for i, a := range c.Args {
+		g, err := bridge.Build(a)
+		if err != nil {
+			return nil, err
+		}
+		args[i] = g
+	}
+	if _, err := vm.Run("LASTCALL = null"); err != nil {
+		return nil, err
+	}
+	var path []string
+	for _, p := range c.CSrc["path"].([]any) {
+		path = append(path, p.(string))
+	}
+	var r otto.Value
+	var err error
+	if c.Route == "object" {
+		o, e := vm.Object(path[0])
+		if e != nil {
+			return nil, e
+		}
+		r, err = o.Call(path[1], args...)
+	} else {
+		source := strings.Join(path, ".")
+		if isNew, _ := c.CSrc["new"].(bool); isNew {
+			source = "new" + strings.Repeat(" ", int(c.CSrc["sp"].(float64))) + source
+		}
+		var this interface{}
+		if c.Th["k"] == "objO" {
+			ov, e := vm.Get("O")
+			if e != nil {
+				return nil, e
+			}
+			this = ov
+		}
+		r, err = vm.Call(source, this, args...)
+	}
+	if err != nil {
+		return M{"error": bridge.ErrClass(err)}, nil
+	}
+	lc, e := vm.Run("JSON.stringify(LASTCALL)")
+	if e != nil {
+		return nil, e
+	}
+	obs, perr := parseObj(lc.String())
+	m, ok := obs.(map[string]any)
+	if perr != nil || !ok {
+		return M{"lastcall": lc.String()}, nil
+	}
+	if r.IsObject() {
+		tag, _ := r.Object().Get("tag")
+		m["ret"] = "obj:" + tag.String()
+	} else {
+		m["ret"] = r.String()
+	}
+	return m, nil
+}
+
+// runMapW: undefined / null (and a value, then null) written by a script into a bridged map; afterwards one key is
+// observed through `in`, Object.keys, m[key], the Go map (presence and value), MarshalJSON and Export.
+func runMapW(vm *otto.Otto, c *caseT) (M, error) {
+	var mp reflect.Value
+	var et reflect.Type
+	switch c.K {
+	case "iface":
+		mp = reflect.ValueOf(map[string]interface{}{"a": 1})
+	case "int8":
+		mp = reflect.ValueOf(map[string]int8{"a": 1})
+	case "string":
+		mp = reflect.ValueOf(map[string]string{"a": "v"})
+	case "bool":
+		mp = reflect.ValueOf(map[string]bool{"a": true})
+	case "ptr:inner":
+		mp = reflect.ValueOf(map[string]*bridge.Inner{"a": {N: 1}})
+	case "slice:int8":
+		mp = reflect.ValueOf(map[string][]int8{"a": {1}})
+	case "map:int8":
+		mp = reflect.ValueOf(map[string]map[string]int8{"a": {"x": 1}})
+	default:
+		return nil, fmt.Errorf("unknown element kind %q", c.K)
+	}
+	et = mp.Type().Elem()
+	if err := vm.Set("m", mp.Interface()); err != nil {
+		return nil, err
+	}
+	thr := ""
+	for _, st := range c.Steps {
+		var parts []json.RawMessage
+		b, _ := json.Marshal("m[" + jsx.StrLit(intsOf(st["key"])) + "] = ")
+		parts = append(parts, b)
+		if js, ok := st["js"].([]any); ok {
+			for _, p := range js {
+				pb, _ := json.Marshal(p)
+				parts = append(parts, pb)
+			}
+		}
+		body, consts, err := gen.Render(parts)
+		if err != nil {
+			return nil, err
+		}
+		for k, f := range consts {
+			if err := vm.Set(k, f); err != nil {
+				return nil, err
+			}
+		}
+		stmt := "var THR = 'none'; try { " + body + "; THR = ''; } catch (e) { THR = (e instanceof Error) ? e.name : 'value'; }"
+		if _, err := vm.Run(stmt); err != nil {
+			thr = "uncaught:" + bridge.ErrClass(err)
+		} else if t, e := vm.Get("THR"); e == nil {
+			thr = t.String()
+		}
+	}
+	key := jsx.StrLit(c.Key)
+	obs := M{"thr": thr}
+	r, err := vm.Run("JSON.stringify({has: (" + key + " in m), keys: Object.keys(m).sort(CMPU).map(UNITS), val: OBS(m[" + key + "])})")
+	if err != nil {
+		return M{"thr": thr, "unobservable": err.Error()}, nil
+	}
+	js, err := parseObj(r.String())
+	if err != nil {
+		return nil, err
+	}
+	for k, v := range js.(map[string]any) {
+		obs[k] = v
+	}
+	goKey := reflect.ValueOf(jsx.UnitsString(c.Key))
+	form := func(ev reflect.Value) any {
+		if !ev.IsValid() {
+			return M{"k": "absent"}
+		}
+		switch et.Kind() {
+		case reflect.Ptr, reflect.Slice, reflect.Map:
+			if ev.IsNil() {
+				return M{"k": "nilval", "of": c.K}
+			}
+			return M{"k": "nonnil"}
+		}
+		return bridge.ProjectAs(ev, et)
+	}
+	obs["go"] = form(mp.MapIndex(goKey))
+	mv, err := vm.Get("m")
+	if err != nil {
+		return nil, err
+	}
+	ex, _ := mv.Export()
+	exv := reflect.ValueOf(ex)
+	obs["same"] = exv.IsValid() && exv.Kind() == reflect.Map && exv.Pointer() == mp.Pointer()
+	obs["json"] = M{"j": "absent"}
+	if jb, err := mv.MarshalJSON(); err != nil {
+		obs["json"] = M{"j": "error"}
+	} else if tree, err := bridge.JSONTree(jb); err != nil {
+		obs["json"] = M{"j": "unparsable"}
+	} else if tm, ok := tree.(bridge.M); ok && tm["j"] == "obj" {
+		ks, _ := tm["keys"].([]any)
+		vs, _ := tm["vals"].([]any)
+		for i, k := range ks {
+			if reflect.DeepEqual(norm(k), norm(bridge.Units(jsx.UnitsString(c.Key)))) {
+				obs["json"] = vs[i]
+			}
+		}
+	}
+	return obs, nil
+}
+
+func intsOf(v any) []int {
+	a, _ := v.([]any)
+	out := make([]int, len(a))
+	for i, x := range a {
+		out[i] = int(x.(float64))
+	}
+	return out
+}
+
 // runCallErr: calls that must fail: the callee throws, the value is not callable, the name does not resolve.
 func runCallErr(vm *otto.Otto, c *caseT) (M, error) {
 	var err error
@@ -478,7 +694,7 @@ func (b *vmBox) execute(l *line, fresh bool) (obs any, src string, err error) {
 	}
 	b.used++
 	var consts map[string]float64
-	if c.Fam == "j2g" {
+	if c.Fam == "j2g" || c.Fam == "dag" {
 		src, consts, err = gen.Render(l.Js)
 		if err != nil {
 			return nil, "", err
@@ -497,6 +713,12 @@ func (b *vmBox) execute(l *line, fresh bool) (obs any, src string, err error) {
 			m, err = runCallErr(b.vm, &c)
 		case "mut":
 			m, err = runMut(b.vm, &c)
+		case "mapw":
+			m, err = runMapW(b.vm, &c)
+		case "dag":
+			m, err = runDag(b.vm, src, consts)
+		case "callsrc":
+			m, err = runCallSrc(b.vm, &c)
 		default:
 			err = fmt.Errorf("unknown family %q", c.Fam)
 		}
